@@ -107,3 +107,34 @@ contract('mapproxy.seed.cleanup:cache_cleanup', props=['C12'],
          stable_fields=['levels', 'remove_timestamp', 'remove_all'],
          opaque_spec={'remove_level_tiles_before': {}},
          loops={0: dict(inv=[], body_trace=[_cache_level])})
+
+
+# ---- cleanup(): the strategies that ignore the coverage are used only for tasks that cover the complete extent ------------------
+def _strategy_choice(ex, st, k):
+    import z3
+    evs_ = st.trace[getattr(st, 'iter_start_trace', 0):]
+    task = st.env['task']
+    whole = [e for e in evs_ if e.name in ('simple_cleanup', 'cache_cleanup')]
+    walk = [e for e in evs_ if e.name == 'tilewalker_cleanup']
+    complete = ex.truth(st, ex.opaque_field(st, task, 'complete_extent'))
+    cov = ex.opaque_field(st, task, 'coverage')
+    goal = z3.BoolVal(len(whole) + len(walk) <= 1)
+    for e in whole + walk:
+        goal = z3.And(goal, z3.BoolVal(e.args[0] is task))
+    if whole:
+        # level-wise strategies remove by level directory / SQL per level: they do not look at the coverage
+        goal = z3.And(goal, complete)
+    yield ('coverage_blind_strategies_only_for_complete_extent', goal,
+           'simple_cleanup / cache_cleanup (which remove whole levels without consulting the task coverage) run only when '
+           'task.complete_extent is true; every other task goes through the coverage-aware tile walker; one strategy per task')
+
+
+contract('mapproxy.seed.cleanup:cleanup', props=['C12'],
+         types=dict(tasks='list[opaque]', concurrency='opaque', dry_run='bool', skip_geoms_for_last_levels='opaque', verbose='opaque',
+                    progress_logger='opt[opaque]'), returns='none', default_callee='opaque',
+         opaque_fields={'complete_extent': 'opaque', 'coverage': 'opaque'}, stable_fields=['complete_extent', 'coverage'],
+         opaque_spec={'format_cleanup_task': {'pure': True}, 'get': {'pure': True}, 'SeedProgress': {'pure': True},
+                      'DirectoryCleanupProgress': {'pure': True}, 'callable': {'returns': 'bool', 'pure': True},
+                      'getattr': {'pure': True}, 'simple_cleanup': {}, 'cache_cleanup': {}, 'tilewalker_cleanup': {}, 'cleanup': {}},
+         opaque=['simple_cleanup', 'cache_cleanup', 'tilewalker_cleanup'],
+         loops={0: dict(inv=[], types={}, body_trace=[_strategy_choice])})
